@@ -18,7 +18,7 @@ const ns = int64(1000000000)
 func main() {
 	r := vh.Start("c08t")
 	defer r.Finish()
-	r.Rep.Rule = "virtual-time instants at -1 ns / 0 / +1 ns / +1 s / +30 s / +59.999999999 s around six consecutive minute ticks (which include two key-slot changes); at each instant the real Marshal is compared with the model's minute(), and the real Unmarshal of both metadata layouts is given segments stamped by a sender whose clock is skewed by 0, +-1 ns, +-59.999999999 s, +-60 s, +-60 s-+1 ns, +-90 s, +-120 s, +-121 s, +-180 s, +-1 h. distinct_nontrivial = distinct (offset class, skew, layout) triples"
+	r.Rep.Rule = "virtual-time instants at -1 ns / 0 / +1 ns / +1 s / +30 s / +59.999999999 s around six consecutive minute ticks (which include two key-slot changes); at each instant the real Marshal is compared with the model's minute(), and the real Unmarshal of both metadata layouts is given segments stamped by a sender whose clock is skewed by 0, +-1 ns, +-59.999999999 s, +-60 s, +-60 s-+1 ns, +-90 s, +-120 s, +-121 s, +-180 s, +-1 h. distinct_nontrivial = distinct (offset class, skew, layout) triples. Then the age of the key-holding client underlay (aged.go): K = the scheduling window of a real client PacketUnderlay measured exactly; P = its real ScheduleController asked at ages 0, 1 ns, 1 s, 30 s, 59 s, 60 s-+1 ns, 61 s, 75 s, 90 s, 119 s, 120 s-+1 ns, 130 s; U = real client muxes (UDP, in-memory network) whose first underlay is created at the last ns / +59 s / +45 s / +30 s / centre / -30 s / first ns of a key slot (thorough: more and random phases and ages), new sessions dialled at every age of the grid (up to 6 dials per age until one lands on the aged underlay), each real open-session request given to the real server-side decryptor at skews 0, +-1 ns, +-30 s, +-59 s, +-60 s-+1 ns, +-90 s, +-120 s; distinct = (slot phase, age class of the underlay used, skew); X = end to end: a real server mux whose clock is 60 s ahead (every datagram of the client delivered 60 s later), client underlay created at the last ns of a slot, sessions dialled at ages 0, 60 s, 60 s+1 ns, 75 s, 90 s, 105 s, 120 s, 120 s+1 ns with no live earlier session left at the server (thorough: also phase +30 s and skew 1 ns); S = one real TCP connection aged 0..600 s with new sessions accepted by a real server"
 	start := time.Now().UnixNano() // 2009-11-10 23:00:00 UTC under faketime: a minute tick and a slot boundary
 	var offs []int64
 	for k := int64(1); k <= 6; k++ {
@@ -89,4 +89,6 @@ func main() {
 			}
 		}
 	}
+	// the age of the key-holding client underlay (aged.go)
+	agedCases(r)
 }
